@@ -28,3 +28,10 @@ CHECK = {
     "assumptions": ["k nearest neighbours include the query point itself (as the library's kd-tree query does)",
                     "eigenvector bound 16 eps c/gap with c = 1+|mean|^2/lambda_max, gap = (l1-l0)/lambda_max; ties (1e-6) and gaps below 1e-6 are skipped and counted"],
 }
+
+# additionally: a reduced workload under valgrind memcheck, for uninitialised-value
+# use and invalid accesses that the ASan build cannot see; oracle verdicts are not taken from this
+# flavour (valgrind emulates long double with 64 bits), only memcheck's own reports and aborts
+CHECK["thorough"]["flavours"] = list(CHECK.get("flavours", ["asan"])) + ["memcheck"]
+CHECK["quick"]["flavours"] = list(CHECK.get("flavours", ["asan"])) + ["memcheck"]
+CHECK["flavour_cases"] = {"memcheck": {"quick": 24, "thorough": 600}}
